@@ -411,6 +411,10 @@ func probeRow(c *ctx, f gcnasm.Format, op int, count bool) (row, bool) {
 		r.IsaName = gcnasm.NameOf(c.arch, ff, op)
 		r.DecName = r.IsaName
 	}
+	if c.arch == gcnasm.CDNA3 && ff == gcnasm.VOP1 && op == 56 && names.CDNA3 != "" {
+		// the shared decode table names the row after GCN3's v_movrelsd_b32; GFX9 defines v_mov_b64 here
+		r.IsaName = names.CDNA3
+	}
 	if r.IsaName != "" {
 		r.W = gcnasm.WidthsOf(ff, op, r.IsaName)
 	}
